@@ -9,6 +9,7 @@ package varmq
 // on these episodes.
 
 import (
+	"fmt"
 	"github.com/goptics/varmq/internal/vt"
 )
 
@@ -247,8 +248,10 @@ func init() {
 			binder = vt.Cur().ID
 			c := e.call("Bind", "dist")
 			if prio {
+				vt.Mark("ad:binding", ad, "") // the next Manager.Register by this thread is this adapter's
 				e.wPlain.WithDistributedPriorityQueue(adPrio{ad})
 			} else {
+				vt.Mark("ad:binding", ad, "") // the next Manager.Register by this thread is this adapter's
 				e.wPlain.WithDistributedQueue(ad)
 			}
 			c.ret(e.w.Status())
@@ -263,6 +266,95 @@ func init() {
 		jn.wait()
 		vt.WaitIdle()
 		e.takeFinalCounts()
+	})
+
+	// ctxstop: the configured context is cancelled while a job is in flight; the asynchronous
+	// listener's Stop then waits for it. Whatever the client calls meanwhile (Resume, Pause, TunePool,
+	// submissions), once everything is at rest the worker is Stopped (C14: cancelling a configured
+	// context stops the worker; the listener interleaves arbitrarily).
+	registerFamily("ctxstop", []string{"C14", "C03"}, func(e *env) {
+		r := vt.Rand()
+		e.kind = e.p("kind", r.Intn(3))
+		e.conc = e.p("conc", 1+r.Intn(2))
+		e.withCtx = true
+		e.noFinalDrain = true
+		e.mkWorker()
+		q := e.bind(pick(r, qFifo, qPrio))
+		n := 1 + r.Intn(3)
+		for i := 0; i < n; i++ {
+			e.add(q, 0, oOK, true, "")
+		}
+		vt.WaitIdle() // min(n, conc) gated jobs are in flight
+		e.lifecycle("CtxCancel", 0)
+		for k := r.Intn(4); k > 0; k-- {
+			vt.Yield()
+		}
+		var jn joiner
+		jn.goClient("meddler", func() {
+			for i := 1 + r.Intn(3); i > 0; i-- {
+				switch r.Intn(5) {
+				case 0, 1:
+					e.lifecycle("Resume", 0)
+				case 2:
+					e.lifecycle("Pause", 0)
+				case 3:
+					e.lifecycle("TunePool", 1+r.Intn(3))
+				case 4:
+					e.add(q, 0, oOK, false, "")
+				}
+				for k := r.Intn(3); k > 0; k-- {
+					vt.Yield()
+				}
+			}
+		})
+		jn.goClient("opener", func() {
+			for k := r.Intn(5); k > 0; k-- {
+				vt.Yield()
+			}
+			e.openGates()
+		})
+		jn.wait()
+		vt.WaitIdle()
+		if st := e.w.Status(); st != "Stopped" && !vt.S.Hang {
+			e.notes = append(e.notes, fmt.Sprintf("LIFECYCLE: the configured context was cancelled, the system is at rest, and the worker reports %s", st))
+		}
+	})
+
+	// ctxstop2: directed. A Pause is held right before its status store (it has read Running); the
+	// context is cancelled and the listener's Stop runs to completion; the Pause is released, then
+	// Resume is called. At rest the worker must be Stopped (C14).
+	registerFamily("ctxstop2", []string{"C14", "C03"}, func(e *env) {
+		r := vt.Rand()
+		e.kind = e.p("kind", r.Intn(3))
+		e.conc = e.p("conc", 1+r.Intn(2))
+		e.withCtx = true
+		e.noFinalDrain = true
+		e.mkWorker()
+		q := e.bind(pick(r, qFifo, qPrio))
+		e.add(q, 0, oOK, false, "")
+		vt.WaitIdle()
+		pauser, on := -1, true
+		vt.Hold(func(tid, site int, kind string) bool {
+			return on && tid == pauser && kind == "store" && siteName(site) == "worker.Pause/w.status.Store"
+		})
+		var jn joiner
+		jn.goClient("pauser", func() {
+			pauser = vt.Cur().ID
+			e.lifecycle("Pause", 0)
+		})
+		vt.WaitIdle() // the pauser sits before its store
+		e.lifecycle("CtxCancel", 0)
+		vt.WaitIdle() // the listener has stopped the worker
+		on = false
+		jn.wait()
+		vt.WaitIdle()
+		if r.Intn(2) == 0 {
+			e.lifecycle("Resume", 0)
+			vt.WaitIdle()
+		}
+		if st := e.w.Status(); st != "Stopped" && !vt.S.Hang {
+			e.notes = append(e.notes, fmt.Sprintf("LIFECYCLE: the configured context was cancelled, the system is at rest, and the worker reports %s", st))
+		}
 	})
 }
 
